@@ -35,7 +35,7 @@ class C02(IRProp):
     id = "C02"
     prop_file = "Properties/C02.v"
     tag = "c02"
-    genopts = dict(with_cfi=False, with_aux=False)
+    genopts = dict(with_cfi=False, with_aux=False, multi_labels=True)
     trusted_base = IRProp.base_trusted
     assumptions = ["positions are compared as offsets into the concatenated listing: the end of block k and the start of block k+1 are the same place"]
     level_rule = ("random x86-64 modules with start labels on every block, extra start labels and end labels on random blocks, patches that define "
@@ -104,6 +104,21 @@ class C02(IRProp):
                         expect(name, ("pos", starts[i] + off + delta + lo))
                     delta += len(data)
                 delta -= ln
+        # every label a patch text defines is a symbol of the module afterwards, once per application of the patch, and designates a
+        # position (read off the patch TEXT, not off what the assembler handed over)
+        import re
+        defs = {}
+        for n, (bi, t, off, ln, patch, _) in enumerate(case.mods):
+            if isinstance(patch, str) and t != "del" and n in r["mod_code"]:
+                for base in re.findall(r"^(\.L\w+):", patch, re.M):
+                    defs[base] = defs.get(base, 0) + 1
+        for base, count in defs.items():
+            found = [(name, got) for name, got in obs.items() if name == base or re.fullmatch(re.escape(base) + r"_\d+", name)]
+            if len(found) != count:
+                bad.append(dict(what=f"label {base}: defined by {count} applied patch(es), {len(found)} symbol(s) of that name in the module", finding=None))
+            for name, got in found:
+                if got[0] != "pos":
+                    bad.append(dict(what=f"label {name} of a patch designates no position: {got}", finding=None))
         for name, got in obs.items():
             if got[0] == "dangling":
                 bad.append(dict(what=f"label {name}: {got[1]}", finding=None))
